@@ -125,13 +125,25 @@ def run_impl(c):
             return np.zeros(shape, np.dtype(d["dtype"]))
         return vf.try_impl(lambda: (XYData(arr(c["x"]), arr(c["y"])), 0)[1])
     if k == "xyeq":
-        from nitypes.xy_data import XYData
-        x1, y1 = np.array([1.0, 2.0]), np.array([3.0, 4.0])
-        x2 = x1.copy() if c["sx"] else np.array([1.0, 2.5])
-        y2 = y1.copy() if c["sy"] else np.array([3.0, 4.5])
-        a = XYData(x1, y1, x_units="s", y_units="V")
-        b = XYData(x2, y2, x_units="s" if c["sxu"] else "ms", y_units="V" if c["syu"] else "mV")
-        return {"eq": bool(a == b)}
+        def f():
+            from nitypes.xy_data import XYData
+            shape = c.get("shape", "same")
+            if shape == "same":
+                x1, y1 = np.array([1.0, 2.0]), np.array([3.0, 4.0])
+                x2 = x1.copy() if c["sx"] else np.array([1.0, 2.5])
+                y2 = y1.copy() if c["sy"] else np.array([3.0, 4.5])
+            else:
+                # different lengths (never equal): one element against its repetition, empty against one, 2 against 3
+                n1, n2 = {"rep": (1, 3), "empty": (0, 1), "23": (2, 3), "rep_r": (3, 1)}[shape]
+                x1, y1, x2, y2 = np.full(n1, 1.0), np.full(n1, 3.0), np.full(n2, 1.0), np.full(n2, 3.0)
+            a = XYData(x1, y1, x_units="s", y_units="V")
+            b = XYData(x2, y2, x_units="s" if c["sxu"] else "ms", y_units="V" if c["syu"] else "mV")
+            eq, ne = a == b, a != b
+            if bool(eq) == bool(ne):
+                raise RuntimeError("== and != agree")
+            return bool(eq)
+        rr = vf.try_impl(f)
+        return {"eq": rr["ok"]} if "ok" in rr else rr
     raise AssertionError(k)
 
 
@@ -206,7 +218,10 @@ def to_coq(c, r):
     if k == "xy":
         return "XYCtor %s %s %s" % (_arrd(c["x"]), _arrd(c["y"]), "(Raise %s)" % r["exc"] if "exc" in r else "(Ok tt)")
     if k == "xyeq":
-        return "XYEq %s %s %s %s %s" % (vf.boolc(c["sx"]), vf.boolc(c["sy"]), vf.boolc(c["sxu"]), vf.boolc(c["syu"]), vf.boolc(r["eq"]))
+        if "exc" in r:
+            return "XYEq true true true true false"      # == raised: never acceptable
+        same = c.get("shape", "same") == "same"
+        return "XYEq %s %s %s %s %s" % (vf.boolc(c["sx"] and same), vf.boolc(c["sy"] and same), vf.boolc(c["sxu"]), vf.boolc(c["syu"]), vf.boolc(r["eq"]))
     raise AssertionError(k)
 
 
@@ -276,6 +291,9 @@ def gen_cases(rng, tier):
         cases.append({"k": "xy", "x": {"ndim": nx, "len": lx, "dtype": dx}, "y": {"ndim": ny, "len": ly, "dtype": dy}})
     for m in range(16):
         cases.append({"k": "xyeq", "sx": bool(m & 1), "sy": bool(m & 2), "sxu": bool(m & 4), "syu": bool(m & 8)})
+    for shape in ("rep", "empty", "23", "rep_r"):
+        for m in (15, 11):
+            cases.append({"k": "xyeq", "sx": True, "sy": True, "sxu": bool(m & 4), "syu": bool(m & 8), "shape": shape})
     return cases
 
 
